@@ -218,7 +218,13 @@ class Agent(dbus.service.Object):
             ''' React to :py:meth:`cla.AbstractAdaptor.recv_bundle_finish` calls.
             '''
             self._logger.debug('recv_bundle_finish from %s with %s', cltype, metadata)
-            ctr = BundleContainer(Bundle(data))
+            bundle = Bundle(data)
+            if bytes(bundle) != bytes(data):
+                # Block CRCs are checked on the re-encoded blocks,
+                # which is only meaningful if that is what was received
+                self._logger.warning('Ignoring bundle which does not re-encode to the received data')
+                return
+            ctr = BundleContainer(bundle)
             self.recv_bundle(ctr)
 
         return func
